@@ -68,6 +68,9 @@ def cfgs_for(d, p, cfgset, tier):
         if d['l'] + sum(d['q']) + sum(d['s']) > 0:
             for bad in (('s', 'neg'), ('z', 'neg'), ('s', 'zero'), ('z', 'zero')):
                 out.append({'entry': 'conelp', 'storage': 'dense', 'kkt': None, 'start': 'both', 'badstart': bad})
+                # ... and with only the start point that carries the invalid vector
+                out.append({'entry': 'conelp', 'storage': 'dense', 'kkt': None, 'start': 'primal' if bad[0] == 's' else 'dual',
+                            'badstart': bad})
             ent = 'lp' if only_l else ('socp' if not d['s'] else ('sdp' if not d['q'] else None))
             if ent:
                 out.append({'entry': ent, 'storage': 'dense', 'kkt': None, 'start': 'both', 'badstart': ('z', 'neg')})
